@@ -7,6 +7,19 @@ _A_NOTE = ('Trusted: CrossHair 0.0.110 proxy semantics and path pruning, z3 5.1.
            'before a VIOLATION is printed.')
 
 CLAIMS = {
+    'C01': dict(
+        engine='A-crosshair',
+        technique='bounded symbolic execution of the real code (CrossHair + z3), differential against the direct call',
+        text=('For every signature of the generated catalogue (all 324 combinations of <=2 positional-only, <=2 '
+              'positional-or-keyword, *args, keyword-only, **kwargs parameters with every placement of defaults), every '
+              'subset of parameters set (constructor or later edits), 0-2 *args values, an optional extra **kwargs '
+              'name, every nesting of a child Config inside list/tuple/dict/namedtuple arguments, and unbounded '
+              'symbolic int values: cfg[:] and the keyword report equal what was configured, and fdl.build returns '
+              'exactly the record of the direct call (unset parameters take the callable\'s defaults) or raises '
+              'when a required parameter is missing. Special callables (class __init__, subclass chain, dataclass '
+              'with default_factory, classmethod, functools.partial object, callable instance, NamedTuple) are '
+              'separate cubes.'),
+        note=_A_NOTE + ' Stubs: building._format_arg and Buildable.__repr__ return constants (formatting is C05\'s subject).'),
     'C03': dict(
         engine='A-crosshair',
         technique='bounded symbolic execution of the real code (CrossHair + z3) against a reference model',
